@@ -23,7 +23,7 @@ ASSUMPTIONS = [
     'bool is not used as an Integer/Number value or List item; Selector/ListSelector objects are int/float/str literals',
     'ClassSelector class_ and List item_type are drawn from the literal types (int, float, str) and tuples of them',
 ]
-REQUIRED = {'states_validated': 1500, 'oob_probes': 500, 'schemas_checked': 300}
+REQUIRED = {'states_validated': 1500, 'oob_probes': 500, 'schemas_checked': 300, 'customised_instances': 50}
 
 KEYWORDS = {'type', 'anyOf', 'enum', 'minimum', 'maximum', 'exclusiveMinimum', 'exclusiveMaximum', 'minItems', 'maxItems',
             'items', 'additionalItems', 'format', 'properties', 'description', 'title', 'allOf', 'oneOf', 'const',
@@ -57,7 +57,7 @@ def _walk_keywords(schema, path, bad):
 
 def conf_class(s):
     c = [s['ptype']]
-    if s.get('bounds') is not None or 'bounds' in s['kw']:
+    if s['kw'].get('bounds') is not None:
         b = s['kw'].get('bounds')
         inc = s['kw'].get('inclusive_bounds', (True, True))
         c.append(f'b{int(b[0] is not None)}{int(b[1] is not None)}i{int(inc[0])}{int(inc[1])}')
@@ -88,6 +88,35 @@ def run_case(idx, rng, P, rep):
 
     level_inst = rng.random() < 0.5
     src = cls() if level_inst else cls
+    customised = False
+    if level_inst and rng.random() < 0.6:
+        # per-instance Parameter objects with their own constraints: schema() of the instance must describe them
+        for i, s in enumerate(list(specs)):
+            if s['ptype'] in ('Integer', 'Number', 'Range', 'Tuple', 'NumericTuple', 'Selector', 'ListSelector', 'String',
+                              'Boolean', 'Date') and rng.random() < 0.6:
+                s2 = G.gen_spec(rng, s['ptype'], for_schema=True)
+                s2['name'] = s['name']
+                pobj = src.param[s['name']]
+                if s['ptype'] in ('Integer', 'Number', 'Range'):
+                    pobj.bounds = s2['kw'].get('bounds')
+                    pobj.inclusive_bounds = s2['kw'].get('inclusive_bounds', (True, True))
+                    s2['kw'].setdefault('bounds', None)
+                elif s['ptype'] in ('Tuple', 'NumericTuple'):
+                    pobj.length = s2['kw']['length']
+                elif s['ptype'] in ('Selector', 'ListSelector'):
+                    pobj.objects = s2['kw']['objects']
+                v = None if s2['allow_None'] and rng.random() < 0.3 else s2['gen'](rng)
+                if v is None:
+                    s2['allow_None'] = True
+                pobj.allow_None = s2['allow_None']
+                with param.parameterized.discard_events(src):
+                    setattr(src, s['name'], v)
+                specs[i] = s2
+                customised = True
+        desc = G.describe(specs)
+        by_name = {s['name']: s for s in specs}
+        if customised:
+            rep.count('customised_instances')
     try:
         schema = src.param.schema()
         schema = json.loads(json.dumps(schema))
@@ -138,14 +167,26 @@ def run_case(idx, rng, P, rep):
     validate_state(src, 'defaults')
     for _ in range(P['states']):
         st = G.state(rng, specs)
-        validate_state(cls(**st), 'state')
+        if customised:
+            src.param.update(**st)
+            validate_state(src, 'customised-instance-state')
+        else:
+            validate_state(cls(**st), 'state')
     # ---- out-of-bounds probes for Number / Integer
     for s in specs:
         if s['ptype'] in ('Integer', 'Number') and s.get('bounds') is not None and s['name'] in validators:
             for v, why in G.outside(rng, s['bounds'], s['incl'], s['integer']):
                 # the probe must really be invalid for the parameter (sanity of the generator, not of param)
                 try:
-                    cls(**{s['name']: v})
+                    if customised:
+                        keep = getattr(src, s['name'])
+                        try:
+                            setattr(src, s['name'], v)
+                        finally:
+                            if getattr(src, s['name']) is not keep:
+                                setattr(src, s['name'], keep)
+                    else:
+                        cls(**{s['name']: v})
                     continue    # param accepts it: not an out-of-bounds probe (cannot happen for finite numbers)
                 except ValueError:
                     pass
